@@ -21,6 +21,7 @@ RULE = ('random gridded IOAPI files (negative origins, non-square cells, '
         'variable). non-trivial = the '
         'window drops at least one cell/layer/step; distinct = digest of '
         'the spec.')
+RULE += (' Windows are also given as numpy integers; sources also written to disk and reopened.')
 ASSUMPTIONS = [
     'time oracle = integer YYYYJJJ/HHMMSS arithmetic in the harness (not '
     'getTimes)',
